@@ -105,6 +105,7 @@ def _valid(pairs, rev, nref, nqry):
 class MultiJoin(_c07.MultiCrash):
     name = 'multi_join'
     quick_n, thorough_n = 2500, 16000
+    finding_needs_model = True      # an invalid joined row is F10 only where the join model of the validated code produces the same row
 
     def oracle(self, case, out):
         errs = []
